@@ -452,3 +452,294 @@ Proof.
     destruct (pval_to_elem (f_ty fd) v); reflexivity.
   - cbn [eval_set]. rewrite F, S. destruct v; try reflexivity. rewrite Harg. destruct (read_map h r); reflexivity.
 Qed.
+
+(* ================================================================== Range *)
+(* the call a statement makes (at most one), when it is not stuck *)
+Definition stmt_calls (fs : list field) (own : option nat) (ob : obj) (s : rrange) : option (list (nat * pval)) :=
+  match s with
+  | RGField g v fdi =>
+    match eval_bexpr fs ob g with
+    | Some true => match eval_rrval fs own ob v with Some pv => Some [(fdi, pv)] | None => None end
+    | Some false => Some []
+    | None => None
+    end
+  | RGOneof o cases =>
+    if forallb (fun c => match member_in fs (fst c) o with Some _ => true | None => false end) cases then
+      match slot_at ob o with
+      | None => Some []
+      | Some (f', el) =>
+        match rp_assoc cases f', nth_error fs f' with
+        | Some (form, fdi), Some fd => match eval_rrcase fd el form with Some pv => Some [(fdi, pv)] | None => None end
+        | _, _ => Some []
+        end
+      end
+    else None
+  end.
+
+Lemma cut_calls_all l : cut_calls (fun _ _ => true) l = l.
+Proof. induction l as [|c l IH]; cbn [cut_calls]; [reflexivity|]. rewrite IH. reflexivity. Qed.
+
+Lemma eval_range_calls f fs own ob : forall L cs acc,
+  Forall2 (fun s c => stmt_calls fs own ob s = Some c) L cs ->
+  eval_range f fs own ob L acc = Some (acc ++ cut_calls f (concat cs)).
+Proof.
+  induction L as [|s L IH]; intros cs acc H; inversion H as [|s' c L' cs' Hs HL]; subst; cbn [eval_range concat cut_calls].
+  - rewrite app_nil_r. reflexivity.
+  - assert (K : forall i pv, c = [(i, pv)] ->
+                (if f i pv then eval_range f fs own ob L (acc ++ [(i, pv)]) else Some (acc ++ [(i, pv)])) =
+                Some (acc ++ cut_calls f (c ++ concat cs'))).
+    { intros i pv ->. cbn [app cut_calls fst snd]. destruct (f i pv); [|reflexivity].
+      rewrite (IH cs' _ HL), <- app_assoc. reflexivity. }
+    assert (K0 : c = [] -> eval_range f fs own ob L acc = Some (acc ++ cut_calls f (c ++ concat cs'))).
+    { intros ->. cbn [app]. apply (IH cs' _ HL). }
+    destruct s as [g v fdi|o cases]; cbn [stmt_calls] in Hs.
+    + destruct (eval_bexpr fs ob g) as [[|]|]; try discriminate.
+      * destruct (eval_rrval fs own ob v) as [pv|]; [|discriminate]. injection Hs as Hc. apply K. symmetry; exact Hc.
+      * injection Hs as Hc. apply K0. symmetry; exact Hc.
+    + destruct (forallb _ cases); [|discriminate].
+      destruct (slot_at ob o) as [[f' el]|]; [|injection Hs as Hc; apply K0; symmetry; exact Hc].
+      destruct (rp_assoc cases f') as [[form fdi]|]; [|injection Hs as Hc; apply K0; symmetry; exact Hc].
+      destruct (nth_error fs f') as [fd|]; [|injection Hs as Hc; apply K0; symmetry; exact Hc].
+      destruct (eval_rrcase fd el form) as [pv|]; [|discriminate]. injection Hs as Hc. apply K. symmetry; exact Hc.
+Qed.
+
+(* -- contiguity: once a oneof has been left, none of its members follows -- *)
+Lemma contig_no_member : forall l prev seen o, contig_from prev seen l = true -> existsb (Nat.eqb o) seen = true ->
+  prev <> Some o -> forall k fd, nth_error l k = Some fd -> rp_member_of o fd = false.
+Proof.
+  induction l as [|a l IH]; intros prev seen o H E P k fd N; [destruct k; discriminate|].
+  cbn [contig_from] in H. unfold rp_member_of.
+  destruct (f_shape a) as [|pk|o1|kk] eqn:Sh.
+  1,2,4: destruct k as [|k]; cbn [nth_error] in N;
+    [inversion N; subst; rewrite Sh; reflexivity|apply (IH None seen o H E (fun X => ltac:(discriminate)) k fd N)].
+  assert (D : o1 <> o /\ exists seen', contig_from (Some o1) seen' l = true /\ existsb (Nat.eqb o) seen' = true).
+  { destruct (match prev with Some o' => Nat.eqb o' o1 | None => false end) eqn:T1.
+    - split; [|eauto]. intros ->. destruct prev as [o'|]; [|discriminate]. apply Nat.eqb_eq in T1. subst. apply P. reflexivity.
+    - destruct (existsb (Nat.eqb o1) seen) eqn:T2; [discriminate|]. split; [intros ->; congruence|].
+      exists (o1 :: seen). split; [exact H|]. cbn [existsb]. rewrite E. apply orb_true_r. }
+  destruct D as [D [seen' [H' E']]].
+  destruct k as [|k]; cbn [nth_error] in N.
+  - inversion N; subst. rewrite Sh. apply Nat.eqb_neq. exact D.
+  - apply (IH (Some o1) seen' o H' E' (fun X => ltac:(inversion X; congruence)) k fd N).
+Qed.
+
+Lemma contig_tail_no_member fd t prev seen o : contig_from prev seen (fd :: t) = true -> existsb (Nat.eqb o) seen = true ->
+  rp_member_of o fd = false -> forall k fd', nth_error t k = Some fd' -> rp_member_of o fd' = false.
+Proof.
+  intros H E M. cbn [contig_from] in H. unfold rp_member_of in M.
+  destruct (f_shape fd) as [|pk|o1|kk] eqn:Sh.
+  1,2,4: apply (contig_no_member t None seen o H E); discriminate.
+  apply Nat.eqb_neq in M.
+  destruct (match prev with Some o' => Nat.eqb o' o1 | None => false end).
+  - apply (contig_no_member t (Some o1) seen o H E). intro X; inversion X; congruence.
+  - destruct (existsb (Nat.eqb o1) seen); [discriminate|].
+    apply (contig_no_member t (Some o1) (o1 :: seen) o H).
+    + cbn [existsb]. rewrite E. apply orb_true_r.
+    + intro X; inversion X; congruence.
+Qed.
+
+Lemma nth_error_firstn_lt {A} : forall (l : list A) i k, k < i -> nth_error (firstn i l) k = nth_error l k.
+Proof.
+  induction l as [|a l IH]; intros i k L; [rewrite firstn_nil; reflexivity|].
+  destruct i as [|i]; [lia|]. destruct k as [|k]; cbn [firstn nth_error]; [reflexivity|]. apply IH. lia.
+Qed.
+Lemma firstn_S_nth {A} : forall (l : list A) i x, nth_error l i = Some x -> firstn (S i) l = firstn i l ++ [x].
+Proof.
+  induction l as [|a l IH]; intros i x N; [destruct i; discriminate|].
+  destruct i as [|i]; cbn [nth_error] in N.
+  - inversion N; subst. reflexivity.
+  - change (firstn (S (S i)) (a :: l)) with (a :: firstn (S i) l). rewrite (IH i x N). reflexivity.
+Qed.
+
+Section RangeObj.
+  Variables (md : msgdesc) (id : nat) (ob : obj).
+  Hypothesis RO : recv_ok md ob.
+  Let fs := m_fields md.
+  Let own := Some id.
+
+  (* the call for the oneof o, when the member set stands at position i or later *)
+  Definition pendc (o i : nat) : list (nat * pval) :=
+    match slot_at ob o with
+    | Some (f', el) =>
+      if i <=? f' then match nth_error fs f' with Some fd' => [(f', elem_to_pval (f_ty fd') el)] | None => [] end else []
+    | None => []
+    end.
+
+  Lemma pend_step o i fd : nth_error fs i = Some fd -> f_shape fd = Member o ->
+    pendc o i = (if has_field ob i fd then [(i, range_field ob own i fd)] else []) ++ pendc o (S i).
+  Proof.
+    intros F Sh. unfold pendc, has_field, range_field, get_field, slot_at. rewrite Sh.
+    destruct (nth o (o_oneofs ob) None) as [[f' el]|]; [|reflexivity].
+    destruct (Nat.eqb f' i) eqn:E.
+    - apply Nat.eqb_eq in E. subst f'. rewrite Nat.leb_refl, F.
+      assert (L : (S i <=? i) = false) by (apply Nat.leb_gt; lia). rewrite L. reflexivity.
+    - apply Nat.eqb_neq in E. cbn [app]. destruct (i <=? f') eqn:L.
+      + apply Nat.leb_le in L. assert (L' : (S i <=? f') = true) by (apply Nat.leb_le; lia). rewrite L'. reflexivity.
+      + apply Nat.leb_gt in L. assert (L' : (S i <=? f') = false) by (apply Nat.leb_gt; lia). rewrite L'. reflexivity.
+  Qed.
+
+  Lemma pend_nil fd t prev seen o i : (forall k, nth_error (fd :: t) k = nth_error fs (i + k)) ->
+    contig_from prev seen (fd :: t) = true -> existsb (Nat.eqb o) seen = true -> rp_member_of o fd = false ->
+    pendc o i = [].
+  Proof.
+    intros Ix H E M. unfold pendc. destruct (slot_at ob o) as [[f' el]|] eqn:SL; [|reflexivity].
+    destruct (i <=? f') eqn:L; [|reflexivity]. apply Nat.leb_le in L.
+    destruct (recv_slot _ _ _ _ _ RO SL) as [fd' [F' [M' _]]]. exfalso.
+    specialize (Ix (f' - i)). replace (i + (f' - i)) with f' in Ix by lia. fold fs in F'. rewrite F' in Ix.
+    destruct (f' - i) as [|k]; cbn [nth_error] in Ix.
+    - inversion Ix; subst. congruence.
+    - pose proof (contig_tail_no_member _ _ _ _ _ H E M k fd' Ix). congruence.
+  Qed.
+
+  (* the statement of a field that is not a member of a oneof *)
+  Lemma field_stmt i fd : nth_error fs i = Some fd -> (forall o, f_shape fd <> Member o) ->
+    exists s, canon_range_field fs i fd = [s] /\
+              stmt_calls fs own ob s = Some (if has_field ob i fd then [(i, range_field ob own i fd)] else []).
+  Proof.
+    intros F NM. destruct (recv_cell _ _ _ _ RO F) as [c [C Fit]]. fold fs in F.
+    unfold canon_range_field, has_field, range_field, get_field, cell_fitsb in *.
+    destruct (f_shape fd) as [|pk|o|kk] eqn:Sh.
+    - destruct (f_ty fd) as [k|m] eqn:T; destruct c; try discriminate.
+      + destruct k; eexists; (split; [reflexivity|]); cbn [stmt_calls eval_bexpr eval_rrval is_enum zero_lit];
+          rewrite F, C, Sh, T; cbn [zero_ok rzero_eqb zero_lit];
+          match goal with |- context [present ?k ?v] => destruct (present k v) end; cbn [negb andb ctor_of rctor_eqb is_enum]; reflexivity.
+      + eexists; (split; [reflexivity|]). cbn [stmt_calls eval_bexpr eval_rrval]. rewrite F, C, Sh, T. destruct p; reflexivity.
+    - destruct (f_ty fd) eqn:T; destruct c as [?|?|l|?|]; try discriminate; eexists; (split; [reflexivity|]);
+        cbn [stmt_calls eval_bexpr eval_rrval]; rewrite F, C, Sh; subst own; cbn iota;
+        destruct (negb (Nat.eqb (olen l) 0)); rewrite ?Sh, ?T; reflexivity.
+    - destruct (NM o eq_refl).
+    - destruct (f_ty fd) eqn:T; destruct c as [?|?|?|mp|]; try discriminate; eexists; (split; [reflexivity|]);
+        cbn [stmt_calls eval_bexpr eval_rrval]; rewrite F, C, Sh; subst own; cbn iota;
+        destruct (negb (Nat.eqb (olen mp) 0)); rewrite ?Sh, ?T; reflexivity.
+  Qed.
+
+  (* the statement of a oneof *)
+  Definition rcform (fd : field) : rrcase :=
+    match f_ty fd with TMsg _ => RGCMsg | TScalar k => if is_enum k then RGCEnum else RGCOf (ctor_of k) end.
+
+  Lemma eval_rrcase_form fd el : eval_rrcase fd el (rcform fd) = Some (elem_to_pval (f_ty fd) el).
+  Proof. unfold eval_rrcase, rcform. destruct (f_ty fd) as [k|m]; [destruct k|]; reflexivity. Qed.
+
+  Lemma oneof_stmt o :
+    stmt_calls fs own ob (RGOneof o (map (fun jf => canon_range_case (fst jf) (snd jf))
+                                          (filter (fun jf => rp_member_of o (snd jf)) (rp_indexed 0 fs)))) = Some (pendc o 0).
+  Proof.
+    assert (E : map (fun jf => canon_range_case (fst jf) (snd jf)) (filter (fun jf => rp_member_of o (snd jf)) (rp_indexed 0 fs))
+              = map (fun x : nat * field => (fst x, (fun n fd => (rcform fd, n)) (fst x) (snd x)))
+                    (filter (fun x => rp_member_of o (snd x)) (rp_indexed 0 fs))) by reflexivity.
+    rewrite E. clear E.
+    cbn [stmt_calls]. rewrite (members_forallb (fun jf => (rcform (snd jf), fst jf))).
+    unfold pendc. destruct (slot_at ob o) as [[f' el]|] eqn:SL; [|reflexivity]. cbn [Nat.leb].
+    destruct (recv_slot _ _ _ _ _ RO SL) as [fd' [F' [M' _]]]. fold fs in F'.
+    rewrite (members_assoc (fun n fd => (rcform fd, n)) _ _ _ _ F' M'), F', eval_rrcase_form. reflexivity.
+  Qed.
+
+  Lemma pendc_first o i : existsb (rp_member_of o) (firstn i fs) = false -> pendc o 0 = pendc o i.
+  Proof.
+    intro E. unfold pendc. destruct (slot_at ob o) as [[f' el]|] eqn:SL; [|reflexivity]. cbn [Nat.leb].
+    destruct (recv_slot _ _ _ _ _ RO SL) as [fd' [F' [M' _]]]. fold fs in F'.
+    destruct (i <=? f') eqn:L; [reflexivity|]. apply Nat.leb_gt in L. exfalso.
+    assert (X : existsb (rp_member_of o) (firstn i fs) = true).
+    { apply existsb_exists. exists fd'. split; [|exact M']. apply (nth_error_In _ f'). rewrite nth_error_firstn_lt by exact L. exact F'. }
+    congruence.
+  Qed.
+
+  Lemma range_main : forall suf i prev seen,
+    (forall k, nth_error suf k = nth_error fs (i + k)) ->
+    contig_from prev seen suf = true ->
+    (forall o, existsb (Nat.eqb o) seen = existsb (rp_member_of o) (firstn i fs)) ->
+    (forall o, prev = Some o -> existsb (Nat.eqb o) seen = true) ->
+    exists cs,
+      Forall2 (fun s c => stmt_calls fs own ob s = Some c)
+              (concat (map (fun jf => canon_range_field fs (fst jf) (snd jf)) (rp_indexed i suf))) cs /\
+      range_from ob own i suf = (match prev with Some o => pendc o i | None => [] end) ++ concat cs.
+  Proof.
+    induction suf as [|fd t IH]; intros i prev seen Ix H Seen Prev.
+    - exists []. split; [constructor|]. cbn [range_from concat]. rewrite app_nil_r.
+      destruct prev as [o|]; [|reflexivity]. unfold pendc.
+      destruct (slot_at ob o) as [[f' el]|] eqn:SL; [|reflexivity].
+      destruct (i <=? f') eqn:L; [|reflexivity]. apply Nat.leb_le in L.
+      destruct (recv_slot _ _ _ _ _ RO SL) as [fd' [F' _]]. fold fs in F'.
+      specialize (Ix (f' - i)). replace (i + (f' - i)) with f' in Ix by lia. rewrite F' in Ix. destruct (f' - i); discriminate.
+    - pose proof (Ix 0) as F. rewrite Nat.add_0_r in F. cbn [nth_error] in F. symmetry in F.
+      assert (Ix' : forall k, nth_error t k = nth_error fs (S i + k)).
+      { intro k. specialize (Ix (S k)). cbn [nth_error] in Ix. rewrite Ix. f_equal. lia. }
+      assert (FS : forall o, existsb (rp_member_of o) (firstn (S i) fs) = existsb (rp_member_of o) (firstn i fs) || rp_member_of o fd).
+      { intro o. rewrite (firstn_S_nth _ _ _ F), existsb_app. cbn [existsb]. rewrite orb_false_r. reflexivity. }
+      cbn [rp_indexed map concat range_from fst snd].
+      destruct (f_shape fd) as [|pk|o|kk] eqn:Sh.
+      1,2,4:
+        (assert (NM : forall o, f_shape fd <> Member o) by (intros o X; congruence);
+         assert (MF : forall o, rp_member_of o fd = false) by (intro o; unfold rp_member_of; rewrite Sh; reflexivity);
+         destruct (field_stmt i fd F NM) as [s [Es Cs]];
+         assert (H' : contig_from None seen t = true) by (cbn [contig_from] in H; rewrite Sh in H; exact H);
+         destruct (IH (S i) None seen Ix' H') as [cs [A B]];
+           [intro o; rewrite FS, MF, orb_false_r; apply Seen|discriminate|];
+         exists ((if has_field ob i fd then [(i, range_field ob own i fd)] else []) :: cs); split;
+           [rewrite Es; cbn [app]; constructor; [exact Cs|exact A]|];
+         rewrite B; cbn [app concat];
+         assert (P0 : match prev with Some o => pendc o i | None => [] end = []) by
+           (destruct prev as [o|]; [|reflexivity]; apply (pend_nil fd t (Some o) seen o i Ix H (Prev o eq_refl) (MF o)));
+         rewrite P0; reflexivity).
+      (* a member of oneof o *)
+      assert (MO : forall o', rp_member_of o' fd = Nat.eqb o o') by (intro o'; unfold rp_member_of; rewrite Sh; reflexivity).
+      cbn [contig_from] in H. rewrite Sh in H.
+      destruct (match prev with Some o' => Nat.eqb o' o | None => false end) eqn:T1.
+      + (* inside the group *)
+        destruct prev as [o'|]; [|discriminate]. apply Nat.eqb_eq in T1. subst o'.
+        pose proof (Prev o eq_refl) as So.
+        destruct (IH (S i) (Some o) seen Ix' H) as [cs [A B]].
+        { intro o'. rewrite FS, MO, <- Seen. destruct (Nat.eqb o o') eqn:E; [|rewrite orb_false_r; reflexivity].
+          apply Nat.eqb_eq in E. subst o'. rewrite So. reflexivity. }
+        { intros o' X. inversion X; subst. exact So. }
+        exists cs. split.
+        * unfold canon_range_field at 1. rewrite Sh, <- Seen, So. cbn [app]. exact A.
+        * rewrite B, (pend_step o i fd F Sh), <- app_assoc. reflexivity.
+      + (* the first member of the group *)
+        destruct (existsb (Nat.eqb o) seen) eqn:T2; [discriminate|].
+        destruct (IH (S i) (Some o) (o :: seen) Ix' H) as [cs [A B]].
+        { intro o'. rewrite FS, MO, <- Seen. cbn [existsb]. rewrite orb_comm, (Nat.eqb_sym o' o). reflexivity. }
+        { intros o' X. inversion X; subst. cbn [existsb]. rewrite Nat.eqb_refl. reflexivity. }
+        exists (pendc o 0 :: cs). split.
+        * unfold canon_range_field at 1. rewrite Sh, <- Seen, T2. cbn [app]. constructor; [apply oneof_stmt|exact A].
+        * rewrite B. cbn [concat]. rewrite (pendc_first o i) by (rewrite <- Seen; exact T2).
+          rewrite (pend_step o i fd F Sh), <- app_assoc.
+          assert (P0 : match prev with Some o' => pendc o' i | None => [] end = []).
+          { destruct prev as [o'|]; [|reflexivity].
+            assert (N : rp_member_of o' fd = false).
+            { rewrite MO. apply Nat.eqb_neq. intros ->. rewrite Nat.eqb_refl in T1. discriminate. }
+            apply (pend_nil fd t (Some o') seen o' i Ix); [|exact (Prev o' eq_refl)|exact N].
+            cbn [contig_from]. rewrite Sh, T1, T2. exact H. }
+          rewrite P0. reflexivity.
+  Qed.
+End RangeObj.
+
+Lemma contig_of_schema sch mid md : rp_contigb sch = true -> get_msg sch mid = Some md -> contig_from None [] (m_fields md) = true.
+Proof.
+  unfold rp_contigb, get_msg. intros H G. rewrite forallb_forall in H. apply H. eapply nth_error_In; eauto.
+Qed.
+
+Lemma range_stop_prog_correct : range_stop_prog_stmt.
+Proof.
+  intros sch h mid p f Hwf Hok Hc. unfold run_range, canon_range, rp_fields. cbn [rr_guard rr_body step].
+  destruct p as [id|]; cbn [xst_of].
+  2:{ cbn [recv_obj]. rewrite range_from_new. reflexivity. }
+  destruct (recv_obj sch h mid (Some id)) as [ob|] eqn:R; [|reflexivity].
+  destruct (get_msg sch mid) as [md|] eqn:G.
+  2:{ rewrite (fields_of_none _ _ G). reflexivity. }
+  rewrite (fields_of_md _ _ _ G).
+  pose proof (recv_ok_of _ _ _ _ _ _ Hok R G) as RO.
+  destruct (range_main md id ob RO (m_fields md) 0 None []) as [cs [A B]].
+  - intro k. reflexivity.
+  - eapply contig_of_schema; eauto.
+  - intro o. reflexivity.
+  - discriminate.
+  - cbv zeta in A, B. cbn [app] in B. rewrite B, (eval_range_calls f _ _ _ _ cs [] A). reflexivity.
+Qed.
+
+Lemma range_prog_correct : range_prog_stmt.
+Proof.
+  intros sch h r Hwf Hok Hc. destruct r as [|mid p| | | | | | | | | |]; try exact I.
+  rewrite (range_stop_prog_correct sch h mid p (fun _ _ => true) Hwf Hok Hc). f_equal.
+  destruct (step sch h (ORange (PMsg mid p))) as [h' v]. destruct v; try reflexivity. rewrite cut_calls_all. reflexivity.
+Qed.
